@@ -973,7 +973,47 @@ pub fn inject(p: &mut Program, which: usize, u: &mut Unstructured) -> bool {
                 return false;
             }
             add_def(p, fresh_struct(&s, vec![field("fld", TypeM::prim("int32"))], false));
-            match pick(u, 6) {
+            match pick(u, 10) {
+                // a primitive or an anonymous type as interface base (alone, or after a good base)
+                6 | 7 | 8 => {
+                    let bad = match pick(u, 4) {
+                        0 => TypeM::prim("int32"),
+                        1 => TypeM::seq(TypeM::prim("int32")),
+                        2 => TypeM::result(TypeM::prim("bool"), TypeM::prim("string")),
+                        _ => TypeM::dict(TypeM::prim("uint8"), TypeM::named(&s)),
+                    };
+                    let bases = if chance(u, 128) { vec![bad] } else { vec![TypeM::named(&i), bad] };
+                    add_def(
+                        p,
+                        DefM::Interface(InterfaceM {
+                            pre: Prelude::default(),
+                            name: n,
+                            bases,
+                            ops: vec![],
+                        }),
+                    )
+                }
+                // an anonymous type as underlying type of an enum
+                9 => {
+                    let bad = if chance(u, 128) { TypeM::seq(TypeM::prim("uint8")) } else { TypeM::dict(TypeM::prim("uint8"), TypeM::prim("bool")) };
+                    add_def(
+                        p,
+                        DefM::Enum(EnumM {
+                            pre: Prelude::default(),
+                            compact: false,
+                            unchecked: chance(u, 128),
+                            name: n,
+                            underlying: Some(bad),
+                            enumerators: vec![EnumeratorM {
+                                pre: Prelude::default(),
+                                name: "X".into(),
+                                fields: None,
+                                value: Some(7),
+                                effective: 7,
+                            }],
+                        }),
+                    )
+                }
                 // an interface where a type is expected
                 0 => add_def(p, fresh_struct(&n, vec![field("a", TypeM::named(&i))], false)),
                 // a field / operation / parameter name where a type is expected
